@@ -21,6 +21,7 @@ POOL = [
     "NULL", "TRUE", "FALSE", "0", "1", "-1", "1180591620717411303424", "0.0", "1.5", "-2.5",
     "''", "'a'", "'abc'", "'1'", "'['", "'+'", "'{1+}'", "'{x#q}'", "3", "[3, 1, 2]", "date('20200101')", "//a//", "[]", "[1, 'a']", "[[1, 2], [3, 4]]", "<<>>", "<<1, 2>>",
     "<<<>>>", "<<<'a' => 1>>>", "<*a=1*>", "fn(x) x", "str_output()", "str_input('x')",
+    "do def pb = <*x = 1*>; def pc = <*_proto_ = pb*>; pb->_proto_ = pc; <*_proto_ = pb, y = 2*> end",      # prototype chain running into a cycle past the start
     "'123456789'", "'20200101'", "<*_str_ = fn(self) 'obj', a = 1*>", "<*_str_ = 5*>", "<*_proto_ = 5, a = 1*>", "fn(a, b) 'x'",
 ]
 HUGE = "1180591620717411303424"
@@ -84,7 +85,7 @@ def discover():
     return out
 
 
-class Alarm(Exception):
+class Alarm(BaseException):      # not an Exception: a blanket `except Exception` in the code under test must not swallow the time limit
     pass
 
 
@@ -94,16 +95,22 @@ def _on_alarm(sig, frm):
 
 def run_case(I, errs, call, args, is_mutator):
     """returns None if the contracts hold, else (kind, detail)"""
+    signal.setitimer(signal.ITIMER_REAL, 2.0, 0.25)      # repeating: the limit holds even if one alarm is lost in a handler
     try:
-        for k in ("a0", "a1", "a2", "p", "q", "i", "j"):
-            I.environment.map.pop(k, None)
-        for i, a in enumerate(args):
-            I.interpret(f"def a{i} = {a}", "-")
-        before = [str(I.environment.map[f"a{i}"]) for i in range(len(args))]
+        try:
+            for k in ("a0", "a1", "a2", "p", "q", "i", "j"):
+                I.environment.map.pop(k, None)
+            for i, a in enumerate(args):
+                I.interpret(f"def a{i} = {a}", "-")
+            before = [str(I.environment.map[f"a{i}"]) for i in range(len(args))]
+        finally:
+            signal.setitimer(signal.ITIMER_REAL, 0)
+    except Alarm:
+        return ("C13", "does not terminate within 2 s (building or rendering the argument values)")
     except Exception as e:      # the pool value itself could not be built: not a case
         return None
     src = call.format(*[f"a{i}" for i in range(len(args))])
-    signal.setitimer(signal.ITIMER_REAL, 2.0)
+    signal.setitimer(signal.ITIMER_REAL, 2.0, 0.25)
     out = None
     try:
         try:
@@ -124,7 +131,13 @@ def run_case(I, errs, call, args, is_mutator):
         out = ("C13", f"host exception {type(e).__name__}: {str(e)[:80]}")
     if out is None and not is_mutator:
         try:
-            after = [str(I.environment.map[f"a{i}"]) for i in range(len(args))]
+            signal.setitimer(signal.ITIMER_REAL, 2.0, 0.25)
+            try:
+                after = [str(I.environment.map[f"a{i}"]) for i in range(len(args))]
+            finally:
+                signal.setitimer(signal.ITIMER_REAL, 0)
+        except Alarm:
+            return ("C13", "does not terminate within 2 s (rendering the arguments after the call)")
         except Exception as e:
             after = before
         for i, (b, a) in enumerate(zip(before, after)):
@@ -146,6 +159,7 @@ def _work(job):
     call, name, tuples, is_mut = job
     fails = []
     n = 0
+    hung = 0
     for args in tuples:
         n += 1
         r = run_case(I, errs, call, args, is_mut)
@@ -158,6 +172,9 @@ def _work(job):
         if r is not None and r[1].startswith("does not terminate"):
             _W["I"] = _interp()
             I = _W["I"]
+            hung += 1
+            if hung >= 3:       # three time limits in one call shape: reported, the rest of the shape is not waited for
+                break
     return n, fails
 
 
